@@ -6,6 +6,7 @@ import SpVerif.Ops.PusTm
 import SpVerif.Ops.Srv1
 import SpVerif.Ops.SeqCount
 import SpVerif.Ops.Cds
+import SpVerif.Ops.Crc
 import SpVerif.Ops.CfdpHeader
 import SpVerif.Ops.ByteField
 import SpVerif.Ops.Tlv
@@ -27,6 +28,7 @@ def allOps : List (String × Handler) := []
   ++ Ops.Srv1.ops
   ++ Ops.SeqCount.ops
   ++ Ops.Cds.ops
+  ++ Ops.Crc.ops
   ++ Ops.CfdpHeader.ops
   ++ Ops.ByteField.ops
   ++ Ops.Tlv.ops
